@@ -464,7 +464,11 @@ func Concretise(d Doc, p Pool, n int) []byte {
 				case "Text":
 					cs = append(cs, textOf(t.Lines, d.Nl, p))
 				default:
-					cs = append(cs, cell(evType[format[i]], v, d, p))
+					c := cell(evType[format[i]], v, d, p)
+					if evType[format[i]] == "int" && n%3 == 2 && v >= 0 {
+						c = fmt.Sprintf("%04d", v) // margins and layers are commonly padded with zeros: 0010 is ten
+					}
+					cs = append(cs, c)
 				}
 			}
 			b.WriteString(t.Cat + ": " + strings.Join(cs, ","))
